@@ -137,10 +137,89 @@ def shapes_c09(tier):
                 pm = tuple(tuple(pres[nf * i:nf * i + nf]) for i in range(N))
                 if not any(any(r) for r in pm): continue
                 out.append((subject, N, pm, tuple(1 if i == N - 1 else 0 for i in range(N)), 1))
+                if subject == 'S2' and N <= 2:
+                    out.append((subject, N, pm, tuple(1 if i == N - 1 else 0 for i in range(N)), 1, 1))      # as a component pair of a MergedTimeline
     return out
 
 
+def judge_c09(shape, api, ap, m, pos, vals, ovv2, rs, N, pres, extra_vars):
+    res = new_result(shape)
+    for r in rs:
+        if r.outcome == 'infeasible': continue
+        if r.outcome != 'ok':
+            res['problems'].append(f'{r.outcome}: {r.msg}'); continue
+        v = r.value
+        res['obligations'] += 1
+        fails = [k for k in ('q1', 'q3', 'q4') if not v[k]]
+        bad = []
+        for j, (n, ty) in enumerate(api.target_fields):
+            k = [x for x, _ in api.fields].index(n) if n in {a for a, _ in api.fields} else None
+            animated = k is not None and any(pres[i][k] for i in range(N))
+            if animated:
+                bad.append(v['a'].f[j].t != v['b'].f[j].t)          # independent of prior contents
+            bad.append(v['a'].f[j].t != v['a2'].f[j].t)             # idempotent
+        for x, y in zip(v['meta0'], v['meta1']):
+            if not struct_eq(m, x, y): fails.append('metadata changed by start_with')
+        if fails:
+            res['sat'].append(dict(kind='structural', fails=fails)); continue
+        if all(z3.is_false(z3.simplify(b)) for b in bad):
+            res['discharged'] += 1
+        else:
+            st, model = decide(list(r.pc) + [z3.Or(bad)])
+            if st == 'unsat': res['discharged'] += 1
+            elif st == 'sat':
+                # natively checkable witness: keyframes, abstract position (realised as a concrete timing + time) and the
+                # LAST start value; the two prior targets of the replay differ in every field
+                record_sat(res, r.pc, z3.Or(bad), diverse_values(vals, api.fields, [(v, ty) for v, (n, ty) in zip(ovv2, api.target_fields)]) + nice_positions(pos, ap.p),
+                           pos + [x for row in vals for x in row] + ovv2 + [ap.p, ap.tag, ap.rep, ap.rev] + list(extra_vars), model)
+            else: res['problems'].append('solver unknown')
+        if res['sample'] is None:
+            res['sample'] = 'update twice + clone + start_with x2: timeline value unchanged; result terms independent of prior target'
+    return close_result(res, m, rs)
+
+
+def run_c09_merged(shape):
+    """purity of MergedTimeline::update over two real derive timelines (same keyframes, independent timing): the merged value
+    is unchanged by update, the animated properties do not depend on the prior target contents, evaluating twice is idempotent,
+    and the latest start_with replaces earlier ones in every component"""
+    subject, N, pres, eas, ov, _ = shape
+    api, ap, m, pos, vals, ovv = setup(shape)
+    ovv2 = [z3.Const(f'ov2_{n}', sort_of(ty)) for n, ty in api.target_fields]
+    tm = Timing(); tm2 = Timing('_2'); time_v = z3.FP('time', F32)
+    prog = structural._G['prog']
+    of = [f for f in prog.by_last['of'] if f.impl_self == 'MergedTimeline'][0]
+    upd = [f for f in prog.by_last['update'] if f.impl_self == 'MergedTimeline'][0]
+    sw = [f for f in prog.by_last['start_with'] if f.impl_self == 'MergedTimeline'][0]
+
+    def h(m):
+        assume_positions(m, pos)
+        m.assume(tm.valid()); m.assume(tm2.valid())
+        kfs = mk_kfs(api, shape, pos, vals)
+        tl = build_timeline(m, api, kfs, tm, tag_easing(0), memo_key='t')
+        tl2 = build_timeline(m, api, kfs, tm2, tag_easing(0), memo_key='t2')
+        mt = m.call_fn(of, [Agg('[]', [tl, tl2])])
+        t_once = m.alloc(clone(mt)); t_twice = m.alloc(clone(mt))
+        m.call_fn(sw, [t_once, m.alloc(ov_source(api, subject, ovv2))])
+        m.call_fn(sw, [t_twice, m.alloc(ov_source(api, subject, ovv))])
+        m.call_fn(sw, [t_twice, m.alloc(ov_source(api, subject, ovv2))])
+        q4 = struct_eq(m, t_once, t_twice)
+        before = clone(m.load(t_twice))
+        ta, s0 = mk_target(api, 's0'); tb, s1 = mk_target(api, 's1')
+        ga, gb = m.alloc(ta), m.alloc(tb)
+        m.call_fn(upd, [t_twice, ga, Sc('f32', time_v)])
+        q1 = struct_eq(m, before, m.load(t_twice))
+        m.call_fn(upd, [t_twice, gb, Sc('f32', time_v)])
+        first = clone(m.load(ga))
+        m.call_fn(upd, [t_twice, ga, Sc('f32', time_v)])
+        return dict(q1=q1, q3=True, q4=q4, a=first, a2=m.load(ga), b=m.load(gb), s0=s0, s1=s1, meta0=[], meta1=[])
+
+    rs = m.explore(h)
+    return judge_c09(shape, api, ap, m, pos, vals, ovv2, rs, N, pres, [tm.delay, tm2.delay, time_v])
+
+
 def run_c09(shape):
+    if len(shape) > 5:
+        return run_c09_merged(shape)
     subject, N, pres, eas, ov = shape
     api, ap, m, pos, vals, ovv = setup(shape)
     ovv2 = [z3.Const(f'ov2_{n}', sort_of(ty)) for n, ty in api.target_fields]
@@ -176,39 +255,7 @@ def run_c09(shape):
         return dict(q1=q1, q3=q3, q4=q4, a=first, a2=m.load(ga), b=m.load(gb), s0=s0, s1=s1, meta0=meta0, meta1=meta1)
 
     rs = m.explore(h)
-    res = new_result(shape)
-    for r in rs:
-        if r.outcome == 'infeasible': continue
-        if r.outcome != 'ok':
-            res['problems'].append(f'{r.outcome}: {r.msg}'); continue
-        v = r.value
-        res['obligations'] += 1
-        fails = [k for k in ('q1', 'q3', 'q4') if not v[k]]
-        bad = []
-        for j, (n, ty) in enumerate(api.target_fields):
-            k = [x for x, _ in api.fields].index(n) if n in {a for a, _ in api.fields} else None
-            animated = k is not None and any(pres[i][k] for i in range(N))
-            if animated:
-                bad.append(v['a'].f[j].t != v['b'].f[j].t)          # independent of prior contents
-            bad.append(v['a'].f[j].t != v['a2'].f[j].t)             # idempotent
-        for x, y in zip(v['meta0'], v['meta1']):
-            if not struct_eq(m, x, y): fails.append('metadata changed by start_with')
-        if fails:
-            res['sat'].append(dict(kind='structural', fails=fails)); continue
-        if all(z3.is_false(z3.simplify(b)) for b in bad):
-            res['discharged'] += 1
-        else:
-            st, model = decide(list(r.pc) + [z3.Or(bad)])
-            if st == 'unsat': res['discharged'] += 1
-            elif st == 'sat':
-                # natively checkable witness: keyframes, abstract position (realised as a concrete timing + time) and the
-                # LAST start value; the two prior targets of the replay differ in every field
-                record_sat(res, r.pc, z3.Or(bad), diverse_values(vals, api.fields, [(v, ty) for v, (n, ty) in zip(ovv2, api.target_fields)]) + nice_positions(pos, ap.p),
-                           pos + [x for row in vals for x in row] + ovv2 + [ap.p, ap.tag, ap.rep, ap.rev], model)
-            else: res['problems'].append('solver unknown')
-        if res['sample'] is None:
-            res['sample'] = 'update twice + clone + start_with x2: timeline value unchanged; result terms independent of prior target'
-    return close_result(res, m, rs)
+    return judge_c09(shape, api, ap, m, pos, vals, ovv2, rs, N, pres, [])
 
 
 # =========================================================================================== C10
